@@ -111,4 +111,12 @@ example : deepestAddr ⟨0, 0, 10, 4⟩ ⟨0, 0⟩ = some ⟨0, 0⟩ := by decid
 example : deepestAddr ⟨0, 0, 10, 4⟩ ⟨160, 5⟩ = none := by decide
 example : deepestAddr ⟨-50, 20, 10, 4⟩ ⟨109, 179⟩ = some ⟨15, 15⟩ := by decide
 
+/-- **C09 on the current source**: the rejection test of `InsertCoord` applied to the addresses `InsertPoint` computes (both regenerated from
+`/repo` on every run, `FloorDiv` proved to be the flooring division) lets a vertex through exactly when it lies in the half-open extent of the grid -/
+theorem C09_accept_iff_source (g : Grid) (hres : 0 < g.res) (p : Pt) :
+    Gen.Arith.insertCoordOutside (Gen.Arith.insertPointX p.x p.y g.minX g.minY g.res) (Gen.Arith.insertPointY p.x p.y g.minX g.minY g.res) (2 ^ g.depth) = false
+      ↔ Inside g p := by
+  rw [← C09_accept_iff g hres p, GenArith.gen_deepestAddr]
+  cases h : Gen.Arith.insertCoordOutside (Gen.Arith.insertPointX p.x p.y g.minX g.minY g.res) (Gen.Arith.insertPointY p.x p.y g.minX g.minY g.res) (2 ^ g.depth) <;> simp
+
 end Texel.C09
